@@ -91,6 +91,7 @@ struct Cx<'tcx> {
     /// function items used as VALUES (passed as `fn` pointers / generic callables): their bodies are dumped too, so that an
     /// indirect call can be resolved to its target by the analysis
     pending: std::cell::RefCell<Vec<Instance<'tcx>>>,
+    ws_iters: std::cell::RefCell<Option<std::collections::HashSet<DefId>>>,
 }
 
 impl<'tcx> Cx<'tcx> {
@@ -233,6 +234,43 @@ impl<'tcx> Cx<'tcx> {
         }
         s.push('}');
         s
+    }
+
+    /// do the generic arguments of this (unwalked) instance mention a workspace ADT that implements `Iterator`?
+    fn mentions_ws_iterator(&self, ci: Instance<'tcx>) -> bool {
+        if self.ws_iters.borrow().is_none() {
+            let mut set = std::collections::HashSet::new();
+            if let Some(tr) = self.tcx.get_diagnostic_item(rustc_span::sym::Iterator) {
+                for imp in self.tcx.all_impls(tr) {
+                    let st = self.tcx.type_of(imp).instantiate_identity().skip_norm_wip();
+                    if let ty::Adt(a, _) = st.kind() {
+                        if self.ws.contains(&self.tcx.crate_name(a.did().krate).to_string()) {
+                            set.insert(a.did());
+                        }
+                    }
+                }
+            }
+            *self.ws_iters.borrow_mut() = Some(set);
+        }
+        let guard = self.ws_iters.borrow();
+        let set = guard.as_ref().unwrap();
+        if set.is_empty() {
+            return false;
+        }
+        for ga in ci.args.iter() {
+            if let Some(t) = ga.as_type() {
+                for inner in t.walk() {
+                    if let Some(it) = inner.as_type() {
+                        if let ty::Adt(a, _) = it.kind() {
+                            if set.contains(&a.did()) {
+                                return true;
+                            }
+                        }
+                    }
+                }
+            }
+        }
+        false
     }
 
     /// does a value of this type contain a workspace ADT or a function pointer / item (through references, arrays, slices, tuples)?
@@ -545,6 +583,7 @@ impl<'tcx> Cx<'tcx> {
                     let mut self_adt = String::new();
                     let mut closure_keys: Vec<String> = vec![];
                     let mut ctor = String::from("null");
+                    let mut ws_iter = false;
                     if let ty::FnDef(cd, _) = fty.kind() {
                         // a tuple-struct / tuple-variant constructor used as a function (`map_or(Ok(()), Err)`, `.map(Some)`): the call IS the aggregate
                         if let DefKind::Ctor(..) = self.tcx.def_kind(*cd) {
@@ -586,6 +625,10 @@ impl<'tcx> Cx<'tcx> {
                                 if self.should_walk(ci, &key) {
                                     leaf = false;
                                     queue.push(ci);
+                                } else if self.mentions_ws_iterator(ci) {
+                                    // library code instantiated with a workspace type that implements Iterator may call that type's
+                                    // `next()` (collect / sum / count / for_each over a hand-written iterator): not followed -> opaque effect
+                                    ws_iter = true;
                                 }
                                 // closures passed as generic args to leaves: dump their bodies too
                                 for ga in ci.args.iter() {
@@ -610,7 +653,7 @@ impl<'tcx> Cx<'tcx> {
                     let aty: Vec<String> = args.iter().map(|x| esc(&self.mono(i, x.node.ty(body, self.tcx)).to_string())).collect();
                     let _ = write!(
                         s,
-                        "{{\"t\":\"call\",\"callee\":{},\"cdef\":{},\"leaf\":{},\"crate\":{},\"closure_call\":{},\"self_adt\":{},\"closures\":[{}],\"args\":[{}],\"argtys\":[{}],\"dest\":{},\"to\":{},\"at\":{},\"func\":{},\"ctor\":{}}}",
+                        "{{\"t\":\"call\",\"callee\":{},\"cdef\":{},\"leaf\":{},\"crate\":{},\"closure_call\":{},\"self_adt\":{},\"closures\":[{}],\"args\":[{}],\"argtys\":[{}],\"dest\":{},\"to\":{},\"at\":{},\"func\":{},\"ctor\":{},\"ws_iter\":{}}}",
                         callee,
                         esc(&cdef),
                         leaf,
@@ -624,7 +667,8 @@ impl<'tcx> Cx<'tcx> {
                         target.map(|t| t.as_usize() as i64).unwrap_or(-1),
                         at,
                         funcop,
-                        ctor
+                        ctor,
+                        ws_iter
                     );
                 }
                 other => {
@@ -651,7 +695,7 @@ impl rustc_driver::Callbacks for Cb {
         if pkg != krate {
             return Compilation::Continue;
         }
-        let cx = Cx { tcx, env: TypingEnv::fully_monomorphized(), ws: ws_crates(), adts: Default::default(), pending: Default::default() };
+        let cx = Cx { tcx, env: TypingEnv::fully_monomorphized(), ws: ws_crates(), adts: Default::default(), pending: Default::default(), ws_iters: Default::default() };
         let mut roots: Vec<(String, DefId)> = vec![];
         for ldid in tcx.hir_body_owners() {
             let did = ldid.to_def_id();
